@@ -38,6 +38,7 @@
 
 #include <fcntl.h>
 #include <poll.h>
+#include <netinet/tcp.h>
 #include <signal.h>
 #include <sys/wait.h>
 
@@ -237,6 +238,54 @@ struct DeadPort {
     }
 };
 
+// counting TCP forwarder in front of every real server (node transport, relay, real daemon): tells which paths the CLI contacted
+struct Proxy {
+    int lfd = -1;
+    std::uint16_t port = 0;
+    std::atomic<int> target{0};
+    std::atomic<int> hits{0}, last_order{0};
+    std::thread th;
+    void start() {
+        lfd = ::socket(AF_INET, SOCK_STREAM, 0);
+        int one = 1; setsockopt(lfd, SOL_SOCKET, SO_REUSEADDR, &one, sizeof one);
+        sockaddr_in ad{}; ad.sin_family = AF_INET; ad.sin_addr.s_addr = htonl(INADDR_LOOPBACK); ad.sin_port = 0;
+        if (::bind(lfd, reinterpret_cast<sockaddr*>(&ad), sizeof ad) != 0 || ::listen(lfd, 16) != 0) die("proxy: bind/listen");
+        socklen_t l = sizeof ad; getsockname(lfd, reinterpret_cast<sockaddr*>(&ad), &l);
+        port = ntohs(ad.sin_port);
+        th = std::thread([this] { loop(); });
+        th.detach();
+    }
+    void reset() { hits = 0; last_order = 0; }
+    static void pump(int a, int b) {
+        std::vector<char> buf(65536);
+        for (;;) {
+            pollfd pf[2] = {{a, POLLIN, 0}, {b, POLLIN, 0}};
+            if (::poll(pf, 2, 30000) <= 0) break;
+            bool done = false;
+            for (int k = 0; k < 2 && !done; ++k) {
+                if (!(pf[k].revents & (POLLIN | POLLHUP | POLLERR))) continue;
+                ssize_t n = ::recv(pf[k].fd, buf.data(), buf.size(), 0);
+                if (n <= 0) { done = true; break; }
+                if (!FakeEndpoint::send_all(k == 0 ? b : a, buf.data(), static_cast<size_t>(n))) done = true;
+            }
+            if (done) break;
+        }
+        ::shutdown(a, SHUT_RDWR); ::shutdown(b, SHUT_RDWR); ::close(a); ::close(b);
+    }
+    void loop() {
+        for (;;) {
+            int c = ::accept(lfd, nullptr, nullptr);
+            if (c < 0) continue;
+            ++hits; last_order = ++FakeEndpoint::order;
+            int s = ::socket(AF_INET, SOCK_STREAM, 0);
+            sockaddr_in ad{}; ad.sin_family = AF_INET; ad.sin_addr.s_addr = htonl(INADDR_LOOPBACK); ad.sin_port = htons(static_cast<std::uint16_t>(target.load()));
+            if (target.load() == 0 || ::connect(s, reinterpret_cast<sockaddr*>(&ad), sizeof ad) != 0) { ::close(s); ::close(c); continue; }
+            int one = 1; setsockopt(s, IPPROTO_TCP, TCP_NODELAY, &one, sizeof one); setsockopt(c, IPPROTO_TCP, TCP_NODELAY, &one, sizeof one);
+            std::thread(pump, c, s).detach();
+        }
+    }
+};
+
 // ------------------------------------------------------------------------------------------------
 struct RealDaemon {     // real ControlServer in front of a real Node
     std::unique_ptr<Node> node;
@@ -259,6 +308,7 @@ struct World {
     std::map<std::string, std::unique_ptr<FakeEndpoint>> fake;       // control / fallback / local
     std::map<std::string, std::unique_ptr<RealDaemon>> daemons;      // started on first use
     DeadPort dead;
+    std::map<std::string, std::unique_ptr<Proxy>> px;               // one per path
     bool relay_up = false;
 };
 World W;
@@ -290,6 +340,7 @@ void start_relay() {
     cfg.relay_endpoints.push_back(ep);
     W.nodeR = std::make_unique<Node>(W.publisher, cfg);
     W.nodeR->start_transport(0);
+    W.px.at("relay")->target = W.relay_port;
     W.relay_up = true;
 }
 bool wait_relay_registered() {
@@ -425,12 +476,13 @@ void do_case(const ev::Cmd& c) {
             Hop h; std::stringstream is(item);
             std::getline(is, h.path, ':'); std::getline(is, h.resp, ':'); std::getline(is, h.impl, ':');
             if (h.impl.empty()) h.impl = (h.path == "transport" || h.path == "relay") ? "node" : "fake";
-            if (is_bytes_resp(h.resp)) h.body = response_of(h.resp, P, var);
+            if (is_bytes_resp(h.resp)) h.body = response_of(h.resp, P, var + 7 * static_cast<long>(chain.size()));
             h.dig = is_bytes_resp(h.resp) ? hex(sha(h.body)) : "";
             chain.push_back(h);
         }
     }
 
+    for (auto& [k, p] : W.px) p->reset();
     auto manifest = base_manifest(id, P, key, nonce);
     if (has_name) manifest.metadata["filename"] = name;
     std::string local_host = "127.0.0.1";
@@ -447,10 +499,10 @@ void do_case(const ev::Cmd& c) {
             hint.scheme = "transport"; hint.priority = prio++;
             if (h.path == "transport") {
                 hint.transport = "tcp";
-                hint.endpoint = "127.0.0.1:" + std::to_string(h.resp == "down" ? W.dead.port : W.nodeT->transport_port());
+                hint.endpoint = "127.0.0.1:" + std::to_string(h.resp == "down" ? W.dead.port : W.px.at("transport")->port);
             } else {
                 hint.transport = "relay";
-                hint.endpoint = "127.0.0.1:" + std::to_string(h.resp == "down" ? W.dead.port : W.relay_port) + "?peer=" + peer_id_to_string(W.publisher);
+                hint.endpoint = "127.0.0.1:" + std::to_string(h.resp == "down" ? W.dead.port : W.px.at("relay")->port) + "?peer=" + peer_id_to_string(W.publisher);
             }
             manifest.discovery_hints.push_back(hint);
             continue;
@@ -461,7 +513,8 @@ void do_case(const ev::Cmd& c) {
                 if (h.resp == "nopayload" || h.resp == "shortstream") die("response kind not available on a real daemon");
                 auto& d = daemon_for(h.path);
                 if (bytes) { std::scoped_lock lk(d.node_mutex); load_node(*d.node, id, h.body, key, nonce); }
-                port = d.port;
+                W.px.at(h.path)->target = d.port;
+                port = W.px.at(h.path)->port;
             } else {
                 auto& f = *W.fake.at(h.path);
                 using M = FakeEndpoint::Mode;
@@ -550,7 +603,9 @@ void do_case(const ev::Cmd& c) {
 
     std::vector<std::string> hops;
     for (auto& h : chain) {
-        if (h.impl == "fake" && h.resp != "down") { auto& f = *W.fake.at(h.path); std::scoped_lock lk(f.mu); h.hits = f.hits; h.order = f.last_order; }
+        if (h.resp == "down") { h.hits = 0; h.order = 0; }
+        else if (h.impl == "fake") { auto& f = *W.fake.at(h.path); std::scoped_lock lk(f.mu); h.hits = f.hits; h.order = f.last_order; }
+        else { auto& x = *W.px.at(h.path); h.hits = x.hits; h.order = x.last_order; }
         hops.push_back("{\"path\":" + ev::jstr(h.path) + ",\"resp\":" + ev::jstr(h.resp) + ",\"impl\":" + ev::jstr(h.impl) + ",\"dig\":" + ev::jstr(h.dig) +
                        ",\"hits\":" + std::to_string(h.hits) + ",\"order\":" + std::to_string(h.order) + "}");
     }
@@ -622,6 +677,8 @@ int main(int argc, char** argv) {
         std::uniform_int_distribution<std::uint32_t> d(2u, network::KeyExchange::kPrime - 2u);
         return d(g); }());
     for (const char* p : {"control", "fallback", "local"}) { W.fake[p] = std::make_unique<FakeEndpoint>(); W.fake[p]->start(); }
+    for (const char* p : {"transport", "relay", "control", "fallback", "local"}) { W.px[p] = std::make_unique<Proxy>(); W.px[p]->start(); }
+    W.px.at("transport")->target = W.nodeT->transport_port();
 
     ev::Cmd c;
     while (ev::read_cmd(script, c)) {
